@@ -46,6 +46,8 @@ STEPS = [
     ("win_cummax", ".extend({'m': 'x.cummax()'}, partition_by=[], order_by=['y'], reverse=['y'])", "window"),
     ("win_mean", ".extend({'a': 'x.mean()', 'mn': 'x.min()'}, partition_by=['g', 'y'])", "window"),
     ("prj_sum", ".project({'s': 'x.sum()', 'm': 'y.max()'}, group_by=['g'])", "project"),
+    ("prj_colsize", ".project({'n': 'x.size()', 'c': 'x.count()'}, group_by=['g'])", "project"),  # size counts rows (nulls too), count the present values
+    ("win_colsize", ".extend({'n': 'x.size()', 'c': 'x.count()'}, partition_by=['g'])", "window"),
     ("prj_size", ".project({'n': '_size()', 'a': 'x.mean()'}, group_by=['g'])", "project"),
     ("prj_all", ".project({'s': 'x.sum()', 'c': 'y.count()'})", "project"),
     ("prj_keys", ".project({}, group_by=['g'])", "project"),
